@@ -1086,3 +1086,936 @@ Lemma ex_dbg_runs :
   run 30 ex_prog = Some ([EvOut (PInt 12); EvOut (PInt 9)], ROk PUnit) /\
   run 60 (wrap_dbg (Some 0, 2, [0; 1]) ex_prog) = Some ([EvOut (PInt 12); EvDbg (PInt 6); EvOut (PInt 9)], ROk PUnit).
 Proof. split; vm_compute; reflexivity. Qed.
+
+(* ---------------------------------------------------------------------------------------------------------- *)
+(* extract-variable *)
+
+Lemma bind_done_nil {A B} r (a : A) (k : env -> A -> outcome B) : bind (Done [] r a) k = k r a.
+Proof. unfold bind. destruct (k r a); reflexivity. Qed.
+
+Lemma bind_done {A B} o1 r (a : A) (k : env -> A -> outcome B) o2 r2 b :
+  k r a = Done o2 r2 b -> bind (Done o1 r a) k = Done (o1 ++ o2) r2 b.
+Proof. simpl. intros ->. reflexivity. Qed.
+
+Lemma bind_done_inv {A B} (m : outcome A) (k : env -> A -> outcome B) o r b :
+  bind m k = Done o r b -> exists o1 r1 a1 o2, m = Done o1 r1 a1 /\ k r1 a1 = Done o2 r b /\ o = o1 ++ o2.
+Proof.
+  destruct m as [o1 r1 a1|o1 e|]; simpl; try discriminate.
+  destruct (k r1 a1) as [o2 r2 b2|o2 e|] eqn:E; try discriminate.
+  intros H; inversion H; subst. eexists _, _, _, _. eauto.
+Qed.
+
+Lemma eval_expr_mono funs f f' r e :
+  f <= f' -> eval_expr funs f r e <> OutOfFuel -> eval_expr funs f' r e = eval_expr funs f r e.
+Proof.
+  induction 1 as [|f' Hle IH]; auto. intros H.
+  destruct (eval_mono_step funs f') as [He _]. rewrite He; rewrite IH; auto.
+Qed.
+
+Lemma exec_stmt_mono funs f f' r s :
+  f <= f' -> exec_stmt funs f r s <> OutOfFuel -> exec_stmt funs f' r s = exec_stmt funs f r s.
+Proof.
+  induction 1 as [|f' Hle IH]; auto. intros H.
+  destruct (eval_mono_step funs f') as [_ [_ [_ Hs]]]. rewrite Hs; rewrite IH; auto.
+Qed.
+
+(* ---------------------------------------------------------------------------------------------------------- *)
+(* Weakening: extra bindings of a name that occurs nowhere in the code change nothing *)
+
+Section Weaken.
+  Variable funs : list fundef.
+  Variable x : name.
+
+  Definition nox (l : list (oid * name)) : Prop := Forall (fun ox => snd ox <> x) l.
+
+  Hypothesis Hfuns : forall fd, In fd funs -> nox (fd_params fd) /\ nox (occ_block (fd_body fd)).
+
+  Inductive wv : value -> value -> Prop :=
+  | WV_int z : wv (VInt z) (VInt z)
+  | WV_bool b : wv (VBool b) (VBool b)
+  | WV_unit : wv VUnit VUnit
+  | WV_fun f : wv (VFun f) (VFun f)
+  | WV_clo r r' ps b : wenv r r' -> nox ps -> nox (occ_block b) -> wv (VClo r ps b) (VClo r' ps b)
+  with wenv : env -> env -> Prop :=
+  | WE_nil : wenv [] []
+  | WE_nil_ins fr' : wframe [] fr' -> wenv [] [fr']
+  | WE_cons fr fr' r r' : wframe fr fr' -> wenv r r' -> wenv (fr :: r) (fr' :: r')
+  with wframe : frame -> frame -> Prop :=
+  | WF_nil : wframe [] []
+  | WF_same y d v v' fr fr' : y <> x -> wv v v' -> wframe fr fr' -> wframe ((y, d, v) :: fr) ((y, d, v') :: fr')
+  | WF_ins d v fr fr' : wframe fr fr' -> wframe fr ((x, d, v) :: fr').
+
+  Lemma wv_show v v' : wv v v' -> show v = show v'.
+  Proof. destruct 1; reflexivity. Qed.
+
+  Lemma wframe_lookup fr fr' y : wframe fr fr' -> y <> x ->
+    match lookup_frame fr y with
+    | Some v => exists v', lookup_frame fr' y = Some v' /\ wv v v'
+    | None => lookup_frame fr' y = None
+    end.
+  Proof.
+    induction 1 as [|z d v v' fr fr' Hz Hv Hfr IH|d v fr fr' Hfr IH]; simpl; intros Hy; auto.
+    - destruct (Nat.eqb y z); [eexists; split; eauto|apply IH; auto].
+    - destruct (Nat.eqb_spec y x); [contradiction|apply IH; auto].
+  Qed.
+
+  Lemma wenv_lookup r r' y : wenv r r' -> y <> x ->
+    match lookup r y with
+    | Some v => exists v', lookup r' y = Some v' /\ wv v v'
+    | None => lookup r' y = None
+    end.
+  Proof.
+    induction 1 as [|fr' Hfr|fr fr' r r' Hfr Hr IH]; intros Hy.
+    - reflexivity.
+    - pose proof (wframe_lookup _ _ y Hfr Hy) as HF. simpl in HF. simpl. rewrite HF. reflexivity.
+    - pose proof (wframe_lookup _ _ y Hfr Hy) as HF. simpl. destruct (lookup_frame fr y) as [v|].
+      + destruct HF as [v' [HF Hv]]. rewrite HF. exists v'. split; auto.
+      + rewrite HF. apply IH; auto.
+  Qed.
+
+  Lemma wframe_assign fr fr' y v v' : wframe fr fr' -> y <> x -> wv v v' ->
+    match assign_frame fr y v with
+    | Some fr1 => exists fr1', assign_frame fr' y v' = Some fr1' /\ wframe fr1 fr1'
+    | None => assign_frame fr' y v' = None
+    end.
+  Proof.
+    induction 1 as [|z d w w' fr fr' Hz Hw Hfr IH|d w fr fr' Hfr IH]; simpl; intros Hy Hv; auto.
+    - destruct (Nat.eqb y z).
+      + eexists; split; eauto. constructor; auto.
+      + specialize (IH Hy Hv). destruct (assign_frame fr y v).
+        * destruct IH as [fr1' [-> H1]]. eexists; split; eauto. constructor; auto.
+        * rewrite IH. reflexivity.
+    - destruct (Nat.eqb_spec y x); [contradiction|]. specialize (IH Hy Hv).
+      destruct (assign_frame fr y v).
+      + destruct IH as [fr1' [-> H1]]. eexists; split; eauto. apply WF_ins; auto.
+      + rewrite IH. reflexivity.
+  Qed.
+
+  Lemma wenv_assign r r' y v v' : wenv r r' -> y <> x -> wv v v' ->
+    match assign r y v with
+    | Some r1 => exists r1', assign r' y v' = Some r1' /\ wenv r1 r1'
+    | None => assign r' y v' = None
+    end.
+  Proof.
+    induction 1 as [|fr' Hfr|fr fr' r r' Hfr Hr IH]; simpl; intros Hy Hv; auto.
+    - pose proof (wframe_assign _ _ y v v' Hfr Hy Hv) as HF. simpl in HF. rewrite HF. reflexivity.
+    - pose proof (wframe_assign _ _ y v v' Hfr Hy Hv) as HF. destruct (assign_frame fr y v).
+      + destruct HF as [fr1' [-> H1]]. eexists; split; eauto. constructor; auto.
+      + rewrite HF. specialize (IH Hy Hv). destruct (assign r y v).
+        * destruct IH as [r1' [-> H1]]. eexists; split; eauto. constructor; auto.
+        * rewrite IH. reflexivity.
+  Qed.
+
+  Lemma wbind_params ps : forall vs vs' acc acc',
+    nox ps -> Forall2 wv vs vs' -> wframe acc acc' -> wframe (bind_params ps vs acc) (bind_params ps vs' acc').
+  Proof.
+    induction ps as [|[d y] ps IH]; simpl; intros vs vs' acc acc' Hok Hvs Hacc; auto.
+    inversion Hok; subst. destruct Hvs; auto. apply IH; auto. constructor; auto.
+  Qed.
+
+  Lemma wenv_tl r r' : wenv r r' -> wenv (tl r) (tl r').
+  Proof. destruct 1; simpl; auto; constructor. Qed.
+
+  Lemma wenv_push r r' y d v v' : wenv r r' -> y <> x -> wv v v' ->
+    wenv (push_binding y d v r) (push_binding y d v' r').
+  Proof.
+    intros Hr Hy Hv. destruct Hr; simpl.
+    - constructor; [|constructor]. constructor; auto. constructor.
+    - constructor; [|constructor]. constructor; auto.
+    - constructor; auto. constructor; auto.
+  Qed.
+
+  (* the extra binding itself *)
+  Lemma wenv_ins r r' d v : wenv r r' -> wenv r (push_binding x d v r').
+  Proof.
+    intros Hr. destruct Hr; simpl.
+    - apply WE_nil_ins. apply WF_ins. constructor.
+    - apply WE_nil_ins. apply WF_ins. auto.
+    - constructor; auto. apply WF_ins. auto.
+  Qed.
+
+  Lemma wenv_nil_frame r r' : wenv r r' -> wenv ([] :: r) ([] :: r').
+  Proof. intros. constructor; auto. constructor. Qed.
+
+  Definition orel_w {A} (R : A -> A -> Prop) (m m' : outcome A) : Prop :=
+    match m, m' with
+    | Done o r a, Done o' r' a' => o = o' /\ wenv r r' /\ R a a'
+    | Fail o k, Fail o' k' => o = o' /\ k = k'
+    | OutOfFuel, OutOfFuel => True
+    | _, _ => False
+    end.
+
+  Lemma orel_w_bind {A B} (R : A -> A -> Prop) (R2 : B -> B -> Prop) m m' k k' :
+    orel_w R m m' ->
+    (forall r r' a a', wenv r r' -> R a a' -> orel_w R2 (k r a) (k' r' a')) ->
+    orel_w R2 (bind m k) (bind m' k').
+  Proof.
+    intros Hm Hk. destruct m, m'; simpl in *; try contradiction; auto.
+    destruct Hm as [-> [Hr Ha]]. specialize (Hk _ _ _ _ Hr Ha).
+    destruct (k r a), (k' r0 a0); simpl in *; try contradiction; auto.
+    - destruct Hk as [-> H]. auto.
+    - destruct Hk as [-> H]. auto.
+  Qed.
+
+  Lemma wbinop op a a' c c' : wv a a' -> wv c c' ->
+    match eval_binop op a c, eval_binop op a' c' with
+    | Some v, Some v' => wv v v'
+    | None, None => True
+    | _, _ => False
+    end.
+  Proof.
+    destruct 1; destruct 1; simpl; auto.
+    - destruct op; simpl; auto; constructor.
+    - destruct op; simpl; auto; constructor.
+  Qed.
+
+  Ltac noxinv :=
+    repeat match goal with
+           | H : nox (_ ++ _) |- _ => apply Forall_app in H; destruct H
+           | H : nox (_ :: _) |- _ => apply Forall_cons_iff in H; destruct H
+           | H : Forall _ (_ ++ _) |- _ => apply Forall_app in H; destruct H
+           | H : Forall _ (_ :: _) |- _ => apply Forall_cons_iff in H; destruct H
+           end.
+
+  Definition ws_expr f := forall r r' e, wenv r r' -> nox (occ_expr e) ->
+    orel_w wv (eval_expr funs f r e) (eval_expr funs f r' e).
+  Definition ws_args f := forall r r' es, wenv r r' -> nox (occ_exprs es) ->
+    orel_w (Forall2 wv) (eval_args funs f r es) (eval_args funs f r' es).
+  Definition ws_block f := forall r r' bl, wenv r r' -> nox (occ_block bl) ->
+    orel_w wv (eval_block funs f r bl) (eval_block funs f r' bl).
+  Definition ws_stmt f := forall r r' s, wenv r r' -> nox (occ_stmt s) ->
+    orel_w wv (exec_stmt funs f r s) (exec_stmt funs f r' s).
+
+  Lemma ws_call f r2 r2' cenv cenv' ps body vs vs' :
+    ws_block f -> wenv r2 r2' -> wenv cenv cenv' -> nox ps -> nox (occ_block body) -> Forall2 wv vs vs' ->
+    orel_w wv
+      (bind (eval_block funs f (bind_params ps vs [] :: cenv) body) (fun _ v => Done [] r2 v))
+      (bind (eval_block funs f (bind_params ps vs' [] :: cenv') body) (fun _ v => Done [] r2' v)).
+  Proof.
+    intros IH Hr2 Hc Hps Hb Hvs. eapply orel_w_bind.
+    - apply IH; auto. constructor; auto. apply wbind_params; auto. constructor.
+    - intros; simpl. auto.
+  Qed.
+
+  Lemma ws_all : forall f, ws_expr f /\ ws_args f /\ ws_block f /\ ws_stmt f.
+  Proof.
+    induction f as [|f [IHe [IHa [IHb IHs]]]].
+    { repeat split; intros r r' e Hr Hok; simpl; auto. }
+    repeat split.
+    - intros r r' e Hr Hok. destruct e; simpl in Hok |- *.
+      + repeat split; auto; constructor.
+      + repeat split; auto; constructor.
+      + noxinv. simpl in H.
+        pose proof (wenv_lookup r r' x0 Hr H) as HL. destruct (lookup r x0).
+        * destruct HL as [v' [-> Hv]]. simpl. auto.
+        * rewrite HL. destruct (find_fun funs x0); simpl; auto. repeat split; auto. constructor.
+      + noxinv. eapply orel_w_bind; [apply IHe; auto|]. intros r1 r1' a a' Hr1 Ha.
+        eapply orel_w_bind; [apply IHe; auto|]. intros r2 r2' c c' Hr2 Hc.
+        pose proof (wbinop op _ _ _ _ Ha Hc) as Hop.
+        destruct (eval_binop op a c), (eval_binop op a' c'); simpl; try contradiction; auto.
+      + noxinv. eapply orel_w_bind; [apply IHe; auto|]. intros r1 r1' vf vf' Hr1 Hvf.
+        eapply orel_w_bind; [apply IHa; auto|]. intros r2 r2' vs vs' Hr2 Hvs.
+        pose proof (Forall2_len _ _ _ Hvs) as Hlen.
+        destruct Hvf; simpl; auto.
+        * destruct (find_fun funs f0) as [fd|] eqn:Ef; simpl; auto.
+          rewrite <- Hlen. destruct (Nat.eqb (length (fd_params fd)) (length vs)); simpl; auto.
+          destruct (Hfuns fd (find_fun_in _ _ _ Ef)) as [Hps Hbody].
+          apply ws_call; auto. constructor.
+        * rewrite <- Hlen. destruct (Nat.eqb (length ps) (length vs)); simpl; auto.
+          apply ws_call; auto.
+      + noxinv. repeat split; auto. constructor; auto.
+      + noxinv. eapply orel_w_bind; [apply IHe; auto|]. intros r1 r1' vc vc' Hr1 Hvc.
+        destruct Hvc as [?|bb| | |]; simpl; auto. destruct bb.
+        * eapply orel_w_bind; [apply IHb; auto using wenv_nil_frame|].
+          intros; simpl. repeat split; auto using wenv_tl.
+        * eapply orel_w_bind; [apply IHb; auto using wenv_nil_frame|].
+          intros; simpl. repeat split; auto using wenv_tl.
+      + eapply orel_w_bind; [apply IHe; auto|]. intros r1 r1' v v' Hr1 Hv. simpl.
+        rewrite (wv_show _ _ Hv). auto.
+      + eapply orel_w_bind; [apply IHe; auto|]. intros r1 r1' v v' Hr1 Hv. simpl.
+        rewrite (wv_show _ _ Hv). repeat split; auto. constructor.
+    - intros r r' es Hr Hok. destruct es; simpl in Hok |- *.
+      + repeat split; auto.
+      + noxinv. eapply orel_w_bind; [apply IHa; auto|]. intros r1 r1' vs vs' Hr1 Hvs.
+        eapply orel_w_bind; [apply IHe; auto|]. intros r2 r2' v v' Hr2 Hv. simpl. repeat split; auto.
+    - intros r r' bl Hr Hok. destruct bl as [|s [|s2 rest]]; simpl in Hok |- *.
+      + repeat split; auto. constructor.
+      + noxinv. apply IHs; auto.
+      + noxinv. eapply orel_w_bind; [apply IHs; auto|]. intros r1 r1' a a' Hr1 Ha.
+        apply IHb; auto. simpl. apply Forall_app; auto.
+    - intros r r' s Hr Hok. destruct s; simpl in Hok |- *.
+      + noxinv. simpl in H. eapply orel_w_bind; [apply IHe; auto|]. intros r1 r1' v v' Hr1 Hv. simpl.
+        repeat split; auto using wenv_push. constructor.
+      + noxinv. simpl in H. eapply orel_w_bind; [apply IHe; auto|]. intros r1 r1' v v' Hr1 Hv.
+        pose proof (wenv_assign r1 r1' x0 v v' Hr1 H Hv) as HA. destruct (assign r1 x0 v).
+        * destruct HA as [ra' [-> Hra]]. simpl. repeat split; auto. constructor.
+        * rewrite HA. simpl. auto.
+      + apply IHe; auto.
+      + noxinv. eapply orel_w_bind; [apply IHe; auto|]. intros r1 r1' vc vc' Hr1 Hvc.
+        destruct Hvc as [?|bb| | |]; simpl; auto. destruct bb.
+        * eapply orel_w_bind; [apply IHb; auto using wenv_nil_frame|].
+          intros r2 r2' a a' Hr2 Ha. apply IHs; auto using wenv_tl. simpl. apply Forall_app; auto.
+        * repeat split; auto. constructor.
+  Qed.
+End Weaken.
+
+(* ---------------------------------------------------------------------------------------------------------- *)
+(* Pure expressions *)
+
+Inductive pres := PV (v : value) | PE (k : err).
+
+Definition of_pres (r : env) (p : pres) : outcome value :=
+  match p with PV v => Done [] r v | PE k => Fail [] k end.
+
+Section Pure.
+  Variable funs : list fundef.
+
+  Fixpoint peval (r : env) (e : expr) : pres :=
+    match e with
+    | EInt z => PV (VInt z)
+    | EBool b => PV (VBool b)
+    | EVar _ y =>
+        match lookup r y with
+        | Some v => PV v
+        | None => match find_fun funs y with Some _ => PV (VFun y) | None => PE ErrUnbound end
+        end
+    | EBin op l rr =>
+        match peval r l with
+        | PV a => match peval r rr with
+                  | PV b => match eval_binop op a b with Some v => PV v | None => PE ErrType end
+                  | PE k => PE k
+                  end
+        | PE k => PE k
+        end
+    | _ => PE ErrType
+    end.
+
+  Ltac sub_nonoof H m :=
+    let E := fresh "E" in
+    assert (m <> OutOfFuel) by (intros E; rewrite E in H; simpl in H; congruence).
+
+  Lemma eval_pure e : forall f r, pure e = true -> eval_expr funs f r e <> OutOfFuel ->
+    eval_expr funs f r e = of_pres r (peval r e).
+  Proof.
+    induction e as [z|b|u y|op l IHl rr IHr|fe IHf args|ps body|c IHc t el|e1 IH1|e1 IH1];
+      intros f r Hp H; simpl in Hp; try discriminate; destruct f as [|f]; try (simpl in H; congruence).
+    - reflexivity.
+    - reflexivity.
+    - simpl. destruct (lookup r y); auto. destruct (find_fun funs y); auto.
+    - apply andb_prop in Hp. destruct Hp as [Hl Hr]. simpl in H |- *.
+      sub_nonoof H (eval_expr funs f r l).
+      rewrite (IHl f r Hl H0) in *. destruct (peval r l) as [a|k]; simpl of_pres in *; [|reflexivity].
+      rewrite bind_done_nil in *.
+      sub_nonoof H (eval_expr funs f r rr).
+      rewrite (IHr f r Hr H1) in *. destruct (peval r rr) as [c|k]; simpl of_pres in *; [|reflexivity].
+      rewrite bind_done_nil. destruct (eval_binop op a c); reflexivity.
+  Qed.
+
+  Lemma pure_done e f r o r1 a : pure e = true -> eval_expr funs f r e = Done o r1 a -> o = [] /\ r1 = r /\ peval r e = PV a.
+  Proof.
+    intros Hp H. rewrite (eval_pure e f r Hp) in H by congruence.
+    destruct (peval r e); simpl in H; inversion H; auto.
+  Qed.
+
+  Lemma pure_es_done es : forall f r o r1 vs, pure_es es = true -> eval_args funs f r es = Done o r1 vs -> o = [] /\ r1 = r.
+  Proof.
+    induction es as [|e rest IH]; intros f r o r1 vs Hp H; destruct f as [|f]; simpl in H; try discriminate.
+    - inversion H; auto.
+    - simpl in Hp. apply andb_prop in Hp. destruct Hp as [He Hrest].
+      apply bind_done_inv in H. destruct H as [o1 [r' [vs1 [o2 [H1 [H2 ->]]]]]].
+      destruct (IH _ _ _ _ _ Hrest H1) as [-> ->].
+      apply bind_done_inv in H2. destruct H2 as [o3 [r'' [v [o4 [H3 [H4 ->]]]]]].
+      destruct (pure_done _ _ _ _ _ _ He H3) as [-> [-> _]]. inversion H4; auto.
+  Qed.
+
+  Lemma lookup_push_neq x d v r y : y <> x -> lookup (push_binding x d v r) y = lookup r y.
+  Proof. intros Hy. destruct r; simpl; destruct (Nat.eqb_spec y x); try contradiction; auto. Qed.
+
+  Lemma lookup_push_same x d v r : lookup (push_binding x d v r) x = Some v.
+  Proof. destruct r; simpl; rewrite Nat.eqb_refl; reflexivity. Qed.
+
+  Lemma peval_push x d v r e : pure e = true -> Forall (fun ox => snd ox <> x) (occ_expr e) ->
+    peval (push_binding x d v r) e = peval r e.
+  Proof.
+    induction e as [z|b|u y|op l IHl rr IHr|fe IHf args|ps body|c IHc t el|e1 IH1|e1 IH1];
+      intros Hp Hn; simpl in Hp; try discriminate; simpl; auto.
+    - simpl in Hn. inversion Hn; subst. simpl in H1. rewrite lookup_push_neq; auto.
+    - apply andb_prop in Hp. destruct Hp as [Hl Hr]. simpl in Hn. apply Forall_app in Hn. destruct Hn as [Hnl Hnr].
+      rewrite IHl, IHr; auto.
+  Qed.
+
+  (* ---- the selected occurrence: replacing it by a variable that holds its value changes nothing *)
+  Section Hole.
+    Variable r : env.
+    Variable x : name.
+    Variable u : oid.
+    Variable e0 : expr.
+    Hypothesis Hp0 : pure e0 = true.
+
+    Lemma hole_done :
+      (forall e path f o r1 a, covered_expr path e = true -> get_expr path e = Some e0 ->
+         eval_expr funs f r e = Done o r1 a -> exists g v, g <= f /\ eval_expr funs g r e0 = Done [] r v) /\
+      (forall es j path f o r1 vs, covered_exprs j path es = true -> get_exprs j path es = Some e0 ->
+         eval_args funs f r es = Done o r1 vs -> exists g v, g <= f /\ eval_expr funs g r e0 = Done [] r v) /\
+      (forall b : block, True) /\ (forall s : stmt, True).
+    Proof.
+      assert (Here : forall e f o r1 a, Some e = Some e0 -> eval_expr funs f r e = Done o r1 a ->
+                exists g v, g <= f /\ eval_expr funs g r e0 = Done [] r v).
+      { intros e f o r1 a E H. inversion E; subst.
+        destruct (pure_done _ _ _ _ _ _ Hp0 H) as [-> [-> _]]. exists f, a. auto. }
+      apply syntax_mutind; auto; intros.
+      - destruct path; simpl in *; [eauto|discriminate].
+      - destruct path; simpl in *; [eauto|discriminate].
+      - destruct path; simpl in *; [eauto|discriminate].
+      - (* EBin *) destruct path as [|i rest]; [simpl in *; eauto|]. simpl in H1, H2.
+        destruct f as [|f]; [simpl in H3; discriminate|]. simpl in H3.
+        apply bind_done_inv in H3. destruct H3 as [o1 [r' [a1 [o2 [E1 [E2 ->]]]]]].
+        destruct i.
+        + destruct (H _ _ _ _ _ H1 H2 E1) as [g [v [Hg Hv]]]. exists g, v. split; auto.
+        + apply andb_prop in H1. destruct H1 as [Hl Hc].
+          destruct (pure_done _ _ _ _ _ _ Hl E1) as [-> [-> _]].
+          apply bind_done_inv in E2. destruct E2 as [o3 [r'' [a2 [o4 [E3 [E4 ->]]]]]].
+          destruct (H0 _ _ _ _ _ Hc H2 E3) as [g [v [Hg Hv]]]. exists g, v. split; auto.
+      - (* ECall *) destruct path as [|i rest]; [simpl in *; eauto|]. simpl in H1, H2.
+        destruct f0 as [|f0]; [simpl in H3; discriminate|]. simpl in H3.
+        apply bind_done_inv in H3. destruct H3 as [o1 [r' [a1 [o2 [E1 [E2 ->]]]]]].
+        destruct i.
+        + destruct (H _ _ _ _ _ H1 H2 E1) as [g [v [Hg Hv]]]. exists g, v. split; auto.
+        + apply andb_prop in H1. destruct H1 as [Hl Hc].
+          destruct (pure_done _ _ _ _ _ _ Hl E1) as [-> [-> _]].
+          apply bind_done_inv in E2. destruct E2 as [o3 [r'' [a2 [o4 [E3 [E4 ->]]]]]].
+          destruct (H0 _ _ _ _ _ _ Hc H2 E3) as [g [v [Hg Hv]]]. exists g, v. split; auto.
+      - destruct path; simpl in *; [eauto|discriminate].
+      - (* EIf *) destruct path as [|i rest]; [simpl in *; eauto|]. simpl in H2, H3.
+        destruct i; [|discriminate].
+        destruct f as [|f]; [simpl in H4; discriminate|]. simpl in H4.
+        apply bind_done_inv in H4. destruct H4 as [o1 [r' [a1 [o2 [E1 [E2 ->]]]]]].
+        destruct (H _ _ _ _ _ H2 H3 E1) as [g [v [Hg Hv]]]. exists g, v. split; auto.
+      - (* EDbg *) destruct path as [|i rest]; [simpl in *; eauto|]. simpl in H0, H1.
+        destruct f as [|f]; [simpl in H2; discriminate|]. simpl in H2.
+        apply bind_done_inv in H2. destruct H2 as [o1 [r' [a1 [o2 [E1 [E2 ->]]]]]].
+        destruct (H _ _ _ _ _ H0 H1 E1) as [g [v [Hg Hv]]]. exists g, v. split; auto.
+      - (* EPrint *) destruct path as [|i rest]; [simpl in *; eauto|]. simpl in H0, H1.
+        destruct f as [|f]; [simpl in H2; discriminate|]. simpl in H2.
+        apply bind_done_inv in H2. destruct H2 as [o1 [r' [a1 [o2 [E1 [E2 ->]]]]]].
+        destruct (H _ _ _ _ _ H0 H1 E1) as [g [v [Hg Hv]]]. exists g, v. split; auto.
+      - simpl in *. discriminate.
+      - (* ECons *) simpl in H1, H2.
+        destruct f as [|f]; [simpl in H3; discriminate|]. simpl in H3.
+        apply bind_done_inv in H3. destruct H3 as [o1 [r' [vs1 [o2 [E1 [E2 ->]]]]]].
+        destruct j.
+        + apply andb_prop in H1. destruct H1 as [Hrest Hc].
+          destruct (pure_es_done _ _ _ _ _ _ Hrest E1) as [-> ->].
+          apply bind_done_inv in E2. destruct E2 as [o3 [r'' [a2 [o4 [E3 [E4 ->]]]]]].
+          destruct (H _ _ _ _ _ Hc H2 E3) as [g [v [Hg Hv]]]. exists g, v. split; auto.
+        + destruct (H0 _ _ _ _ _ _ H1 H2 E1) as [g [v [Hg Hv]]]. exists g, v. split; auto.
+    Qed.
+  End Hole.
+End Pure.
+
+Section HoleEq.
+  Variable funs : list fundef.
+  Variable r : env.
+  Variable x : name.
+  Variable u : oid.
+  Variable e0 : expr.
+  Variable v : value.
+  Hypothesis Hp0 : pure e0 = true.
+  Hypothesis Hx : lookup r x = Some v.
+  Hypothesis He0 : peval funs r e0 = PV v.
+
+  Ltac sub_nonoof H m N :=
+    let E := fresh "E" in
+    assert (N : m <> OutOfFuel) by (intros E; rewrite E in H; simpl in H; congruence).
+
+  Lemma here_eq f : eval_expr funs f r e0 <> OutOfFuel -> eval_expr funs f r (EVar u x) = eval_expr funs f r e0.
+  Proof.
+    intros H. rewrite (eval_pure funs e0 f r Hp0 H), He0. destruct f as [|f]; [simpl in H; congruence|].
+    simpl. rewrite Hx. reflexivity.
+  Qed.
+
+  Lemma hole_eq :
+    (forall e path f, covered_expr path e = true -> get_expr path e = Some e0 ->
+       eval_expr funs f r e <> OutOfFuel ->
+       eval_expr funs f r (put_expr path (EVar u x) e) = eval_expr funs f r e) /\
+    (forall es j path f, covered_exprs j path es = true -> get_exprs j path es = Some e0 ->
+       eval_args funs f r es <> OutOfFuel ->
+       eval_args funs f r (put_exprs j path (EVar u x) es) = eval_args funs f r es) /\
+    (forall b : block, True) /\ (forall s : stmt, True).
+  Proof.
+    assert (Here : forall e f, Some e = Some e0 -> eval_expr funs f r e <> OutOfFuel ->
+              eval_expr funs f r (EVar u x) = eval_expr funs f r e).
+    { intros e f E H. inversion E; subst. apply here_eq; auto. }
+    apply syntax_mutind; auto; intros.
+    - destruct path; simpl in *; [auto|discriminate].
+    - destruct path; simpl in *; [auto|discriminate].
+    - destruct path; simpl in *; [auto|discriminate].
+    - (* EBin *) destruct path as [|i rest]; [simpl in *; auto|]. simpl in H1, H2.
+      destruct f as [|f]; [simpl in H3; congruence|].
+      destruct i; simpl put_expr; simpl in H3 |- *.
+      + sub_nonoof H3 (eval_expr funs f r l) N1. rewrite (H _ _ H1 H2 N1). reflexivity.
+      + apply andb_prop in H1. destruct H1 as [Hl Hc].
+        sub_nonoof H3 (eval_expr funs f r l) N1.
+        rewrite (eval_pure funs l f r Hl N1) in *. destruct (peval funs r l); simpl of_pres in *; [|reflexivity].
+        rewrite !bind_done_nil in *.
+        sub_nonoof H3 (eval_expr funs f r r0) N2. rewrite (H0 _ _ Hc H2 N2). reflexivity.
+    - (* ECall *) destruct path as [|i rest]; [simpl in *; auto|]. simpl in H1, H2.
+      destruct f0 as [|f0]; [simpl in H3; congruence|].
+      destruct i; simpl put_expr; simpl in H3 |- *.
+      + sub_nonoof H3 (eval_expr funs f0 r f) N1. rewrite (H _ _ H1 H2 N1). reflexivity.
+      + apply andb_prop in H1. destruct H1 as [Hl Hc].
+        sub_nonoof H3 (eval_expr funs f0 r f) N1.
+        rewrite (eval_pure funs f f0 r Hl N1) in *. destruct (peval funs r f); simpl of_pres in *; [|reflexivity].
+        rewrite !bind_done_nil in *.
+        sub_nonoof H3 (eval_args funs f0 r args) N2. rewrite (H0 _ _ _ Hc H2 N2). reflexivity.
+    - destruct path; simpl in *; [auto|discriminate].
+    - (* EIf *) destruct path as [|i rest]; [simpl in *; auto|]. simpl in H2, H3.
+      destruct i; [|discriminate].
+      destruct f as [|f]; [simpl in H4; congruence|]. simpl put_expr; simpl in H4 |- *.
+      sub_nonoof H4 (eval_expr funs f r c) N1. rewrite (H _ _ H2 H3 N1). reflexivity.
+    - (* EDbg *) destruct path as [|i rest]; [simpl in *; auto|]. simpl in H0, H1.
+      destruct f as [|f]; [simpl in H2; congruence|]. simpl put_expr; simpl in H2 |- *.
+      sub_nonoof H2 (eval_expr funs f r e) N1. rewrite (H _ _ H0 H1 N1). reflexivity.
+    - (* EPrint *) destruct path as [|i rest]; [simpl in *; auto|]. simpl in H0, H1.
+      destruct f as [|f]; [simpl in H2; congruence|]. simpl put_expr; simpl in H2 |- *.
+      sub_nonoof H2 (eval_expr funs f r e) N1. rewrite (H _ _ H0 H1 N1). reflexivity.
+    - (* ECons *) simpl in H1, H2.
+      destruct f as [|f]; [simpl in H3; congruence|].
+      destruct j; simpl put_exprs; simpl in H3 |- *.
+      + apply andb_prop in H1. destruct H1 as [Hrest Hc].
+        destruct (eval_args funs f r es) as [o1 r1 vs|o1 k|] eqn:E1; [|reflexivity|reflexivity].
+        destruct (pure_es_done funs _ _ _ _ _ _ Hrest E1) as [-> ->].
+        rewrite !bind_done_nil in *.
+        sub_nonoof H3 (eval_expr funs f r e) N1. rewrite (H _ _ Hc H2 N1). reflexivity.
+      + sub_nonoof H3 (eval_args funs f r es) N1. rewrite (H0 _ _ _ H1 H2 N1). reflexivity.
+  Qed.
+
+  Lemma hole_eq_s s path f : covered_stmt path s = true -> get_stmt path s = Some e0 ->
+    exec_stmt funs f r s <> OutOfFuel ->
+    exec_stmt funs f r (put_stmt path (EVar u x) s) = exec_stmt funs f r s.
+  Proof.
+    destruct hole_eq as [He _].
+    intros Hc Hg H. destruct f as [|f]; [simpl in H; congruence|].
+    destruct s; simpl in Hc, Hg; try discriminate; simpl put_stmt; simpl in H |- *.
+    - sub_nonoof H (eval_expr funs f r e) N1. rewrite (He _ _ _ Hc Hg N1). reflexivity.
+    - sub_nonoof H (eval_expr funs f r e) N1. rewrite (He _ _ _ Hc Hg N1). reflexivity.
+    - apply He; auto.
+  Qed.
+End HoleEq.
+
+Lemma hole_done_s funs r e0 s path f o r1 a : pure e0 = true ->
+  covered_stmt path s = true -> get_stmt path s = Some e0 ->
+  exec_stmt funs f r s = Done o r1 a -> exists g v, g <= f /\ eval_expr funs g r e0 = Done [] r v.
+Proof.
+  intros Hp Hc Hg H. destruct (hole_done funs r e0 Hp) as [He _].
+  destruct f as [|f]; [simpl in H; discriminate|].
+  destruct s; simpl in Hc, Hg; try discriminate; simpl in H.
+  - apply bind_done_inv in H. destruct H as [o1 [r' [a1 [o2 [E1 _]]]]].
+    destruct (He _ _ _ _ _ _ Hc Hg E1) as [g [v [Hle Hv]]]. exists g, v. split; auto.
+  - apply bind_done_inv in H. destruct H as [o1 [r' [a1 [o2 [E1 _]]]]].
+    destruct (He _ _ _ _ _ _ Hc Hg E1) as [g [v [Hle Hv]]]. exists g, v. split; auto.
+  - destruct (He _ _ _ _ _ _ Hc Hg H) as [g [v [Hle Hv]]]. exists g, v. split; auto.
+Qed.
+
+(* the occurrences of the selected expression are occurrences of the statement *)
+Lemma get_occ_incl e0 :
+  (forall e path, get_expr path e = Some e0 -> incl (occ_expr e0) (occ_expr e)) /\
+  (forall es j path, get_exprs j path es = Some e0 -> incl (occ_expr e0) (occ_exprs es)) /\
+  (forall b : block, True) /\ (forall s : stmt, True).
+Proof.
+  assert (Here : forall e, Some e = Some e0 -> incl (occ_expr e0) (occ_expr e)).
+  { intros e E. inversion E. apply incl_refl. }
+  apply syntax_mutind; auto; intros.
+  - destruct path; [apply Here; simpl in * |-; assumption|simpl in *; discriminate].
+  - destruct path; [apply Here; simpl in * |-; assumption|simpl in *; discriminate].
+  - destruct path; [apply Here; simpl in * |-; assumption|simpl in *; discriminate].
+  - destruct path as [|i rest]; [apply Here; simpl in * |-; assumption|]. simpl in *. destruct i.
+    + apply incl_appl. eauto.
+    + apply incl_appr. eauto.
+  - destruct path as [|i rest]; [apply Here; simpl in * |-; assumption|]. simpl in *. destruct i.
+    + apply incl_appl. eauto.
+    + apply incl_appr. eauto.
+  - destruct path; [apply Here; simpl in * |-; assumption|simpl in *; discriminate].
+  - destruct path as [|i rest]; [apply Here; simpl in * |-; assumption|]. simpl in *. destruct i; [|discriminate].
+    apply incl_appl. eauto.
+  - destruct path as [|i rest]; [apply Here; simpl in * |-; assumption|]. simpl in *. eauto.
+  - destruct path as [|i rest]; [apply Here; simpl in * |-; assumption|]. simpl in *. eauto.
+  - simpl in *. discriminate.
+  - simpl in *. destruct j.
+    + apply incl_appl. eauto.
+    + apply incl_appr. eauto.
+Qed.
+
+Lemma get_stmt_nox x s path e0 : nox x (occ_stmt s) -> get_stmt path s = Some e0 -> nox x (occ_expr e0).
+Proof.
+  intros Hn Hg. destruct (get_occ_incl e0) as [He _]. unfold nox in *. rewrite Forall_forall in *.
+  intros ox Hin. apply Hn. destruct s; simpl in Hg |- *; try discriminate.
+  - right. eapply He; eauto.
+  - right. eapply He; eauto.
+  - eapply He; eauto.
+Qed.
+
+(* ---------------------------------------------------------------------------------------------------------- *)
+(* The main block: statements before the selected one run alike (with one more unit of fuel on the right); at the
+   selected statement the new `let` evaluates e0 to the value the statement is about to compute, the statement with the
+   variable in place of e0 does the same as the original, and the extra binding never matters afterwards. *)
+
+Lemma eval_block_done_head funs f r s rest o r1 a :
+  eval_block funs (S f) r (BCons s rest) = Done o r1 a ->
+  exists os rs vs, exec_stmt funs f r s = Done os rs vs.
+Proof.
+  destruct rest as [|s2 rest]; simpl; intros H.
+  - eauto.
+  - apply bind_done_inv in H. destruct H as [o1 [r' [a1 [o2 [E1 _]]]]]. eauto.
+Qed.
+
+Lemma eval_block_head_eq funs f r s s' rest :
+  exec_stmt funs f r s' = exec_stmt funs f r s ->
+  eval_block funs (S f) r (BCons s' rest) = eval_block funs (S f) r (BCons s rest).
+Proof. intros E. destruct rest; simpl; rewrite E; reflexivity. Qed.
+
+Lemma extract_block_nonnil i path x d u bl s :
+  block_nth i bl = Some s -> extract_block i path x d u bl <> BNil.
+Proof.
+  destruct bl as [|s0 rest]; [destruct i; simpl; intros H; discriminate H|]. intros _.
+  destruct i; simpl; [destruct (get_stmt path s0)|]; discriminate.
+Qed.
+
+Section ExtractMain.
+  Variable funs : list fundef.
+  Variable x : name.
+  Variables d u : oid.
+  Variable path : list nat.
+  Variable s : stmt.
+  Variable e0 : expr.
+  Hypothesis Hfuns : forall fd, In fd funs -> nox x (fd_params fd) /\ nox x (occ_block (fd_body fd)).
+  Hypothesis Hcov : covered_stmt path s = true.
+  Hypothesis Hget : get_stmt path s = Some e0.
+  Hypothesis Hpure : pure e0 = true.
+
+  Lemma extract_prefix : forall i bl f r r' o r1 a,
+    wenv x r r' -> nox x (occ_block bl) -> block_nth i bl = Some s ->
+    eval_block funs f r bl = Done o r1 a ->
+    exists r1' a', eval_block funs (S f) r' (extract_block i path x d u bl) = Done o r1' a' /\ wv x a a'.
+  Proof.
+    induction i as [|i IH]; intros bl f r r' o r1 a Hr Hn Hnth Hrun;
+      destruct bl as [|s0 rest]; simpl in Hnth; try discriminate;
+      destruct f as [|f1]; try (simpl in Hrun; discriminate).
+    - (* the selected statement *)
+      inversion Hnth; subst s0. simpl extract_block. rewrite Hget.
+      simpl in Hn. apply Forall_app in Hn. destruct Hn as [Hns Hnrest].
+      pose proof (get_stmt_nox x s path e0 Hns Hget) as Hn0.
+      destruct (eval_block_done_head _ _ _ _ _ _ _ _ Hrun) as [os [rs [vs Hs]]].
+      destruct (hole_done_s funs r e0 s path f1 os rs vs Hpure Hcov Hget Hs) as [g [v [Hg Hv]]].
+      (* e0 in the right environment *)
+      destruct (ws_all funs x Hfuns g) as [We _].
+      pose proof (We r r' e0 Hr Hn0) as W0. rewrite Hv in W0.
+      destruct (eval_expr funs g r' e0) as [o' r'' v'|o' k'|] eqn:Ev'; simpl in W0; try contradiction.
+      destruct W0 as [Eo [_ Hvv]]. subst o'.
+      destruct (pure_done funs e0 g r' [] r'' v' Hpure Ev') as [_ [Er Hpe]]. subst r''.
+      assert (Ef1 : eval_expr funs f1 r' e0 = Done [] r' v').
+      { rewrite (eval_expr_mono funs g f1 r' e0 Hg); rewrite Ev'; auto. discriminate. }
+      set (r2 := push_binding x d v' r').
+      assert (Hlet : exec_stmt funs (S f1) r' (SLet d x e0) = Done [] r2 VUnit).
+      { simpl. rewrite Ef1. reflexivity. }
+      rewrite eval_block_cons by discriminate. rewrite Hlet, bind_done_nil.
+      (* weakening: the original block in the environment with the extra binding *)
+      destruct (ws_all funs x Hfuns (S f1)) as [_ [_ [Wb _]]].
+      assert (Hr2 : wenv x r r2) by (apply wenv_ins; auto).
+      assert (Hnb : nox x (occ_block (BCons s rest))) by (simpl; apply Forall_app; auto).
+      pose proof (Wb r r2 (BCons s rest) Hr2 Hnb) as W1. rewrite Hrun in W1.
+      destruct (eval_block funs (S f1) r2 (BCons s rest)) as [o2 r2' a2|o2 k2|] eqn:Eb; simpl in W1; try contradiction.
+      destruct W1 as [Eo [_ Ha]]. subst o2.
+      (* the statement with the variable does the same in that environment *)
+      assert (Hnz : exec_stmt funs f1 r2 s <> OutOfFuel).
+      { intros E. destruct rest; simpl in Eb; rewrite E in Eb; simpl in Eb; discriminate. }
+      assert (Heq : exec_stmt funs f1 r2 (put_stmt path (EVar u x) s) = exec_stmt funs f1 r2 s).
+      { apply (hole_eq_s funs r2 x u e0 v'); auto.
+        - unfold r2. apply lookup_push_same.
+        - unfold r2. rewrite peval_push; auto. }
+      rewrite (eval_block_head_eq _ _ _ _ _ _ Heq). rewrite Eb. eauto.
+    - (* a statement before it *)
+      simpl in Hn. apply Forall_app in Hn. destruct Hn as [Hn0 Hnrest].
+      assert (Hne : rest <> BNil) by (destruct rest; [destruct i; simpl in Hnth; discriminate Hnth|discriminate]).
+      rewrite eval_block_cons in Hrun by auto.
+      apply bind_done_inv in Hrun. destruct Hrun as [o1 [rm [am [o2 [E1 [E2 ->]]]]]].
+      destruct (ws_all funs x Hfuns f1) as [_ [_ [_ Ws]]].
+      pose proof (Ws r r' s0 Hr Hn0) as W0. rewrite E1 in W0.
+      destruct (exec_stmt funs f1 r' s0) as [o1' rm' am'|o' k'|] eqn:Es'; simpl in W0; try contradiction.
+      destruct W0 as [Eo [Hrm _]]. subst o1'.
+      destruct (IH rest f1 rm rm' o2 r1 a Hrm Hnrest Hnth E2) as [r1' [a' [Hright Ha]]].
+      simpl extract_block. rewrite eval_block_cons by (eapply extract_block_nonnil; eauto).
+      rewrite (exec_stmt_mono funs f1 (S f1) r' s0) by (auto; rewrite Es'; discriminate).
+      rewrite Es'. erewrite bind_done by exact Hright. eauto.
+  Qed.
+End ExtractMain.
+
+Theorem extract_var_preserves_thm : forall (p : program) (i : nat) (path : list nat) (x : name) (d u : oid)
+    (s : stmt) (e0 : expr) (fuel : nat) (out : list event) (v : pval),
+  block_nth i (snd p) = Some s ->
+  get_stmt path s = Some e0 ->
+  covered_stmt path s = true ->
+  pure e0 = true ->
+  ~ In x (map snd (occ_prog p)) ->
+  run fuel p = Some (out, ROk v) ->
+  run (S fuel) (extract_var i path x d u p) = Some (out, ROk v).
+Proof.
+  intros [funs main] i path x d u s e0 fuel out v Hnth Hget Hcov Hpure Hfresh Hrun. simpl in Hnth.
+  assert (Hall : nox x (occ_prog (funs, main))).
+  { apply Forall_forall. intros [o y] Hin E. simpl in E. subst y. apply Hfresh. apply (in_map snd) in Hin. exact Hin. }
+  unfold occ_prog in Hall; simpl in Hall. apply Forall_app in Hall. destruct Hall as [Hf Hm].
+  assert (Hfuns : forall fd, In fd funs -> nox x (fd_params fd) /\ nox x (occ_block (fd_body fd))).
+  { intros fd Hfd. unfold nox in *. rewrite Forall_forall in Hf.
+    split; apply Forall_forall; intros ox Hox; apply Hf; apply in_flat_map; exists fd; split; auto;
+      unfold occ_fundef; right; apply in_or_app; auto. }
+  unfold run in *. cbn [fst snd] in *. unfold extract_var. cbn [fst snd].
+  destruct (eval_block funs fuel [[]] main) as [o r a|o k|] eqn:E; try discriminate.
+  inversion Hrun; subst.
+  assert (Hr : wenv x [[]] [[]]) by (constructor; constructor).
+  destruct (extract_prefix funs x d u path s e0 Hfuns Hcov Hget Hpure i main fuel [[]] [[]] out r a Hr Hm Hnth E)
+    as [r1' [a' [Hright Ha]]].
+  rewrite Hright. rewrite (wv_show _ _ _ Ha). reflexivity.
+Qed.
+
+(* non-vacuity (names a=0, fresh x=7):   let a = 3   println(string_repr(a + (a * 2)))   -- extract `a * 2` *)
+Definition ex_extract : program :=
+  ([], BCons (SLet 1 0 (EInt 3))
+      (BCons (SExpr (EPrint (EBin OAdd (EVar 2 0) (EBin OMul (EVar 3 0) (EInt 2))))) BNil)).
+
+Lemma ex_extract_ok :
+  block_nth 1 (snd ex_extract) = Some (SExpr (EPrint (EBin OAdd (EVar 2 0) (EBin OMul (EVar 3 0) (EInt 2))))) /\
+  get_stmt [0; 1] (SExpr (EPrint (EBin OAdd (EVar 2 0) (EBin OMul (EVar 3 0) (EInt 2))))) = Some (EBin OMul (EVar 3 0) (EInt 2)) /\
+  covered_stmt [0; 1] (SExpr (EPrint (EBin OAdd (EVar 2 0) (EBin OMul (EVar 3 0) (EInt 2))))) = true /\
+  pure (EBin OMul (EVar 3 0) (EInt 2)) = true /\
+  ~ In 7 (map snd (occ_prog ex_extract)) /\
+  extract_var 1 [0; 1] 7 10 11 ex_extract =
+    ([], BCons (SLet 1 0 (EInt 3))
+        (BCons (SLet 10 7 (EBin OMul (EVar 3 0) (EInt 2)))
+        (BCons (SExpr (EPrint (EBin OAdd (EVar 2 0) (EVar 11 7)))) BNil))) /\
+  run 10 ex_extract = Some ([EvOut (PInt 9)], ROk PUnit) /\
+  run 11 (extract_var 1 [0; 1] 7 10 11 ex_extract) = Some ([EvOut (PInt 9)], ROk PUnit).
+Proof.
+  repeat split; try (vm_compute; reflexivity).
+  vm_compute. intuition discriminate.
+Qed.
+
+(* ---------------------------------------------------------------------------------------------------------- *)
+(* rename leaves the resolution table unchanged *)
+
+Section ResolveSim.
+  Variable funs : list fundef.
+  Variable b : oid.
+  Variable xb new : name.
+
+  Let funs' := map (rn_fundef funs b new) funs.
+
+  Definition sokb (yd : name * oid) : Prop := fst yd <> new /\ (snd yd = b -> fst yd = xb).
+  Definition sok (fr : sframe) : Prop := Forall sokb fr.
+  Definition sokS (sc : scope) : Prop := Forall sok sc.
+
+  Definition rn_sframe (fr : sframe) : sframe := map (fun yd => (rn_bind b new (snd yd) (fst yd), snd yd)) fr.
+  Definition rn_scope (sc : scope) : scope := map rn_sframe sc.
+
+  Lemma rn_bind_neq' d y dz z : sokb (y, d) -> sokb (z, dz) -> y <> z -> rn_bind b new d y <> rn_bind b new dz z.
+  Proof.
+    unfold sokb, rn_bind; simpl. intros [Hy Hyb] [Hz Hzb] Hne.
+    destruct (Nat.eqb_spec d b), (Nat.eqb_spec dz b); subst; auto.
+    rewrite Hyb, Hzb in Hne; auto.
+  Qed.
+
+  Lemma sframe_none fr y d : sok fr -> lookup_frame_s fr y = None -> sokb (y, d) ->
+    lookup_frame_s (rn_sframe fr) (rn_bind b new d y) = None.
+  Proof.
+    induction fr as [|[z dz] fr IH]; simpl; intros Hok Hl Hy; auto.
+    inversion Hok; subst.
+    destruct (Nat.eqb_spec y z) as [->|Hne]; [discriminate|].
+    destruct (Nat.eqb_spec (rn_bind b new d y) (rn_bind b new dz z)) as [E|_]; auto.
+    exfalso. exact (rn_bind_neq' _ _ _ _ Hy H1 Hne E).
+  Qed.
+
+  Lemma sframe_some fr y d : sok fr -> lookup_frame_s fr y = Some d ->
+    sokb (y, d) /\ lookup_frame_s (rn_sframe fr) (rn_bind b new d y) = Some d.
+  Proof.
+    induction fr as [|[z dz] fr IH]; simpl; intros Hok Hl; [discriminate|].
+    inversion Hok; subst.
+    destruct (Nat.eqb_spec y z) as [->|Hne].
+    - inversion Hl; subst. split; auto. rewrite Nat.eqb_refl. reflexivity.
+    - destruct (IH H2 Hl) as [Hy Hl']. split; auto.
+      destruct (Nat.eqb_spec (rn_bind b new d y) (rn_bind b new dz z)) as [E|_]; auto.
+      exfalso. exact (rn_bind_neq' _ _ _ _ Hy H1 Hne E).
+  Qed.
+
+  Lemma sframe_none_use fr y : sok fr -> lookup_frame_s fr y = None -> y <> new ->
+    lookup_frame_s (rn_sframe fr) y = None.
+  Proof.
+    intros Hok Hl Hy.
+    assert (H : lookup_frame_s (rn_sframe fr) (rn_bind b new (S b) y) = None).
+    { apply sframe_none; auto. split; simpl; auto. intros E. exfalso. clear -E. induction b; simpl in *; lia. }
+    unfold rn_bind in H. replace (Nat.eqb (S b) b) with false in H; auto.
+    symmetry. apply Nat.eqb_neq. lia.
+  Qed.
+
+  Lemma scope_lookup sc y : sokS sc -> y <> new ->
+    match lookup_s sc y with
+    | Some d => sokb (y, d) /\ lookup_s (rn_scope sc) (rn_bind b new d y) = Some d
+    | None => lookup_s (rn_scope sc) y = None
+    end.
+  Proof.
+    induction sc as [|fr sc IH]; simpl; intros Hok Hy; auto.
+    inversion Hok; subst.
+    destruct (lookup_frame_s fr y) as [d|] eqn:El.
+    - destruct (sframe_some _ _ _ H1 El) as [Hyd Hl']. split; auto. rewrite Hl'. reflexivity.
+    - specialize (IH H2 Hy). destruct (lookup_s sc y) as [d|].
+      + destruct IH as [Hyd Hl']. split; auto. rewrite (sframe_none _ _ _ H1 El Hyd). exact Hl'.
+      + rewrite (sframe_none_use _ _ H1 El Hy). exact IH.
+  Qed.
+
+  Definition funframe (l : list fundef) : sframe := map (fun fd => (fd_name fd, fd_id fd)) l.
+
+  Lemma lookup_fun_frame l y : lookup_fun_id l y = lookup_frame_s (funframe l) y.
+  Proof. induction l as [|fd l IH]; simpl; auto. destruct (Nat.eqb y (fd_name fd)); auto. Qed.
+
+  Lemma funframe_rn : funframe funs' = rn_sframe (funframe funs).
+  Proof. unfold funs', funframe, rn_sframe. rewrite !map_map; auto. Qed.
+
+  Hypothesis Hfok : sok (funframe funs).
+
+  Lemma lookup_s_snoc sc fr y :
+    lookup_s (sc ++ [fr]) y = match lookup_s sc y with Some d => Some d | None => lookup_frame_s fr y end.
+  Proof.
+    induction sc as [|fr0 sc IH]; simpl.
+    - destruct (lookup_frame_s fr y); reflexivity.
+    - destruct (lookup_frame_s fr0 y); auto.
+  Qed.
+
+  Lemma resolve_as_scope l sc y : resolve_name l sc y = lookup_s (sc ++ [funframe l]) y.
+  Proof. unfold resolve_name. rewrite lookup_s_snoc, lookup_fun_frame. reflexivity. Qed.
+
+  Lemma resolve_rn sc y : sokS sc -> y <> new ->
+    resolve_name funs' (rn_scope sc) (rn_use b new (resolve_name funs sc y) y) = resolve_name funs sc y.
+  Proof.
+    intros Hok Hy. rewrite !resolve_as_scope, funframe_rn.
+    change [rn_sframe (funframe funs)] with (rn_scope [funframe funs]).
+    unfold rn_scope. rewrite <- map_app. fold (rn_scope (sc ++ [funframe funs])).
+    assert (HokS : sokS (sc ++ [funframe funs])).
+    { apply Forall_app; split; [auto|constructor; auto]. }
+    pose proof (scope_lookup _ y HokS Hy) as HL.
+    destruct (lookup_s (sc ++ [funframe funs]) y) as [d|]; simpl.
+    - destruct HL as [_ HL]. exact HL.
+    - exact HL.
+  Qed.
+
+  (* ---- scopes commute with renaming *)
+
+  Lemma rn_scope_push y d sc : rn_scope (push_s y d sc) = push_s (rn_bind b new d y) d (rn_scope sc).
+  Proof. destruct sc; reflexivity. Qed.
+
+  Lemma sokS_push y d sc : sokS sc -> sokb (y, d) -> sokS (push_s y d sc).
+  Proof.
+    intros Hok Hyd. destruct sc as [|fr sc]; simpl.
+    - constructor; [constructor; [exact Hyd|constructor]|constructor].
+    - inversion Hok; subst. constructor; auto. constructor; auto.
+  Qed.
+
+  Lemma params_frame_rn ps : params_frame (rn_params b new ps) = rn_sframe (params_frame ps).
+  Proof.
+    unfold params_frame, rn_params, rn_sframe. rewrite map_rev, !map_map. reflexivity.
+  Qed.
+
+  Lemma params_ids ps : map (fun p : oid * name => (fst p, Some (fst p))) (rn_params b new ps)
+                        = map (fun p : oid * name => (fst p, Some (fst p))) ps.
+  Proof. unfold rn_params. rewrite map_map. reflexivity. Qed.
+
+  Lemma sok_params ps : ok_occs b xb new ps -> sok (params_frame ps).
+  Proof.
+    intros H. unfold params_frame, sok. apply Forall_rev. apply Forall_map.
+    eapply Forall_impl; [|exact H]. intros [d y] [H1 H2]. split; auto.
+  Qed.
+
+  Ltac okinv :=
+    repeat match goal with
+           | H : ok_occs _ _ _ (_ ++ _) |- _ => apply Forall_app in H; destruct H
+           | H : ok_occs _ _ _ (_ :: _) |- _ => apply Forall_cons_iff in H; destruct H
+           | H : Forall _ (_ ++ _) |- _ => apply Forall_app in H; destruct H
+           | H : Forall _ (_ :: _) |- _ => apply Forall_cons_iff in H; destruct H
+           end.
+
+  Lemma sokS_nil sc : sokS sc -> sokS ([] :: sc).
+  Proof. intros. constructor; auto. constructor. Qed.
+
+  Lemma res_rn :
+    (forall e sc, sokS sc -> ok_occs b xb new (occ_expr e) ->
+       res_expr funs' (rn_scope sc) (rn_expr funs b new sc e) = res_expr funs sc e) /\
+    (forall es sc, sokS sc -> ok_occs b xb new (occ_exprs es) ->
+       res_exprs funs' (rn_scope sc) (rn_exprs funs b new sc es) = res_exprs funs sc es) /\
+    (forall bl sc, sokS sc -> ok_occs b xb new (occ_block bl) ->
+       res_block funs' (rn_scope sc) (rn_block funs b new sc bl) = res_block funs sc bl) /\
+    (forall s sc, sokS sc -> ok_occs b xb new (occ_stmt s) ->
+       res_stmt funs' (rn_scope sc) (rn_stmt funs b new sc s) = res_stmt funs sc s /\
+       stmt_scope (rn_stmt funs b new sc s) (rn_scope sc) = rn_scope (stmt_scope s sc) /\
+       sokS (stmt_scope s sc)).
+  Proof.
+    apply syntax_mutind; intros; simpl in * |-; okinv; try solve [cbn [res_expr res_exprs res_block res_stmt rn_expr rn_exprs rn_block rn_stmt stmt_scope]; auto].
+    - (* EVar *) cbn [res_expr res_exprs res_block res_stmt rn_expr rn_exprs rn_block rn_stmt stmt_scope]. destruct H0 as [Hy _]. simpl in Hy. rewrite resolve_rn; auto.
+    - cbn [res_expr res_exprs res_block res_stmt rn_expr rn_exprs rn_block rn_stmt stmt_scope]. rewrite H, H0; auto.
+    - cbn [res_expr res_exprs res_block res_stmt rn_expr rn_exprs rn_block rn_stmt stmt_scope]. rewrite H, H0; auto.
+    - (* EFun *) cbn [res_expr res_exprs res_block res_stmt rn_expr rn_exprs rn_block rn_stmt stmt_scope]. rewrite params_ids, params_frame_rn.
+      change (rn_sframe (params_frame ps) :: rn_scope sc) with (rn_scope (params_frame ps :: sc)).
+      rewrite H; auto. constructor; auto using sok_params.
+    - (* EIf *) cbn [res_expr res_exprs res_block res_stmt rn_expr rn_exprs rn_block rn_stmt stmt_scope]. change ([] :: rn_scope sc) with (rn_scope ([] :: sc)).
+      rewrite H, H0, H1; auto using sokS_nil.
+    - (* ECons *) cbn [res_expr res_exprs res_block res_stmt rn_expr rn_exprs rn_block rn_stmt stmt_scope]. rewrite H, H0; auto.
+    - (* BCons *) rewrite rn_block_cons.
+      change (res_block funs sc (BCons s b0)) with (res_stmt funs sc s ++ res_block funs (stmt_scope s sc) b0).
+      change (res_block funs' (rn_scope sc) (BCons (rn_stmt funs b new sc s) (rn_block funs b new (stmt_scope s sc) b0)))
+        with (res_stmt funs' (rn_scope sc) (rn_stmt funs b new sc s)
+              ++ res_block funs' (stmt_scope (rn_stmt funs b new sc s) (rn_scope sc)) (rn_block funs b new (stmt_scope s sc) b0)).
+      destruct (H sc H1 H2) as [E1 [E2 E3]]. rewrite E1, E2, H0; auto.
+    - (* SLet *) cbn [res_expr res_exprs res_block res_stmt rn_expr rn_exprs rn_block rn_stmt stmt_scope]. repeat split.
+      + rewrite H; auto.
+      + rewrite rn_scope_push. reflexivity.
+      + apply sokS_push; auto; try (destruct H1 as [A B]; split; auto).
+    - (* SAssign *) cbn [res_expr res_exprs res_block res_stmt rn_expr rn_exprs rn_block rn_stmt stmt_scope]. repeat split; auto. destruct H1 as [Hy _]. simpl in Hy. rewrite resolve_rn, H; auto.
+    - (* SWhile *) cbn [res_expr res_exprs res_block res_stmt rn_expr rn_exprs rn_block rn_stmt stmt_scope]. repeat split; auto. change ([] :: rn_scope sc) with (rn_scope ([] :: sc)).
+      rewrite H, H0; auto using sokS_nil.
+  Qed.
+End ResolveSim.
+
+Lemma flat_map_ext_in' {A B} (f g : A -> list B) l : (forall a, In a l -> f a = g a) -> flat_map f l = flat_map g l.
+Proof.
+  induction l as [|a l IH]; simpl; intros H; auto. rewrite (H a) by auto. rewrite IH; auto.
+Qed.
+
+Theorem rename_preserves_resolution_thm : forall (p : program) (b : oid) (xb new : name),
+  NoDup (map fst (occ_prog p)) ->
+  In (b, xb) (occ_prog p) ->
+  ~ In new (map snd (occ_prog p)) ->
+  res_prog (rename b new p) = res_prog p.
+Proof.
+  intros [funs main] b xb new Hnd Hin Hfresh.
+  assert (Hok : ok_occs b xb new (occ_prog (funs, main))).
+  { apply Forall_forall. intros [o x] Hox. split; simpl.
+    - intros ->. apply Hfresh. apply (in_map snd) in Hox. exact Hox.
+    - intros ->. eapply nodup_fst_unique; eauto. }
+  unfold occ_prog in Hok; simpl in Hok. apply Forall_app in Hok. destruct Hok as [Hokf Hokm].
+  assert (Hfd : forall fd, In fd funs -> okb b xb new (fd_id fd, fd_name fd) /\
+            ok_occs b xb new (fd_params fd) /\ ok_occs b xb new (occ_block (fd_body fd))).
+  { intros fd Hfd. unfold ok_occs in *. rewrite Forall_forall in Hokf.
+    split; [|split].
+    - apply Hokf. apply in_flat_map. exists fd. split; auto. left. reflexivity.
+    - apply Forall_forall. intros ox Hox. apply Hokf. apply in_flat_map. exists fd. split; auto.
+      right. apply in_or_app. auto.
+    - apply Forall_forall. intros ox Hox. apply Hokf. apply in_flat_map. exists fd. split; auto.
+      right. apply in_or_app. auto. }
+  assert (Hfok : sok b xb new (funframe funs)).
+  { unfold sok, funframe. apply Forall_map. apply Forall_forall. intros fd Hin'.
+    destruct (Hfd fd Hin') as [[H1 H2] _]. split; auto. }
+  destruct (res_rn funs b xb new Hfok) as [_ [_ [Hb _]]].
+  unfold res_prog, rename. cbn [fst snd]. f_equal.
+  - rewrite flat_map_map_in. apply flat_map_ext_in'. intros fd Hin'.
+    destruct (Hfd fd Hin') as [_ [Hps Hbody]].
+    unfold res_fundef. simpl. rewrite params_ids, params_frame_rn.
+    change [rn_sframe b new (params_frame (fd_params fd))] with (rn_scope b new [params_frame (fd_params fd)]).
+    rewrite Hb; auto. constructor; [|constructor]. eapply sok_params; eauto.
+  - change [[]] with (rn_scope b new [[]]) at 1. apply Hb; auto. constructor; constructor.
+Qed.
